@@ -542,7 +542,7 @@ func leafVal(name string, idx []int64) float64 {
 	return 0.5 + float64(leafHash(name, idx)%10007)/10007.0*1.5
 }
 
-var edgeVals = []float64{0, 1, 1e-11, 1 - 1e-11, 0.25, 3, -0.5, -4, 1e-13, 1 - 1e-13, 0.75, 2}
+var edgeVals = []float64{0, 1, 1e-11, 1 - 1e-11, 0.25, 3, -0.5, -4, 1e-13, 1 - 1e-13, 0.75, 2, 1e12, -3e15, 700, -700, 1e-300, 5e5}
 
 // leafValEdge draws from special points (zeros, ones, values around the clipping bounds, negatives);
 // points at which either formula is non-finite are skipped by the caller.
